@@ -35,12 +35,14 @@ const (
 
 func dhcpKind(name string, relayed bool) kindDef {
 	return kindDef{
-		name: name,
-		cfgs: []string{"radius-auth", "radius-acct", "no-radius"},
+		name:     name,
+		cfgs:     []string{"radius-auth", "radius-acct", "no-radius"},
 		prefixes: func(string) []string { return []string{"D", "DR", "DRN"} },
+		// thorough: DISCOVER repeated; DISCOVER again while holding a lease (re-offer of the leased address); two renewals
+		morePrefixes: func(string) []string { return []string{"DD", "DRD", "DRNN"} },
 		paths: func(cfg, prefix string) []string {
 			p := []string{"RELEASE", "DECLINE", "EXPIRY"}
-			if prefix == "D" && cfg == "radius-auth" {
+			if !strings.Contains(prefix, "R") && cfg == "radius-auth" {
 				p = append(p, "AUTHFAIL")
 			}
 			return p
@@ -61,7 +63,7 @@ type dhcpWorld struct {
 	vAddr   net.IP // the address the victim was offered / leased
 	vLeased bool   // the victim got an ACK
 	bAddr   net.IP
-	decl    bool // a DECLINE of the leased address was delivered while the victim held the lease
+	decl    bool   // a DECLINE of the leased address was delivered while the victim held the lease
 	wait    func() // lets goroutines settle (synctest.Wait in a bubble; nil under the controlled scheduler)
 	viols   []viol
 }
